@@ -321,7 +321,7 @@ def gen_case(rnd, size):
 
 def plan(tier):
     k = 12 if tier == 'quick' else 16
-    specs = [{'kind': 'programs', 'n': 700 if tier == 'quick' else 20000, 'k': i} for i in range(k)]
+    specs = [{'kind': 'programs', 'n': 2000 if tier == 'quick' else 20000, 'k': i} for i in range(k)]
     specs += [{'kind': 'expression-mode', 'n': 3000 if tier == 'quick' else 50000}]
     return specs
 
